@@ -1,5 +1,6 @@
 use crate::fw::Ctx;
 
+pub mod c01;
 pub mod c02;
 pub mod c03;
 pub mod c04;
@@ -27,6 +28,7 @@ pub struct Prop {
 }
 
 pub const PROPS: &[Prop] = &[
+    Prop { id: "C01", run: c01::run, replay: c01::replay },
     Prop { id: "C02", run: c02::run, replay: c02::replay },
     Prop { id: "C03", run: c03::run, replay: c03::replay },
     Prop { id: "C04", run: c04::run, replay: c04::replay },
@@ -163,6 +165,17 @@ pub fn explore(args: &[String]) {
             for prog in src.split("\n====\n") {
                 println!("{}\n  => {:?}\n", prog.trim(), c02::compare(prog, &reg));
             }
+        }
+        Some("c02min") => {
+            // qv explore c02min <replay.json | file.qv>
+            let text = std::fs::read_to_string(&args[1]).expect("read");
+            let src = match serde_json::from_str::<serde_json::Value>(&text) {
+                Ok(j) => j["replay"]["source"].as_str().unwrap_or("").to_string(),
+                Err(_) => text,
+            };
+            let reg = crate::qrun::registry();
+            let m = c02::minimize(&src, &reg);
+            println!("{m}\n  => {:?}", c02::compare(&m, &reg));
         }
         Some("sim") => {
             // qv explore sim <file> [workers] [quantum]
